@@ -1,5 +1,5 @@
 """C13 — cross-package type references resolve to the right class."""
-AREAS = ["names", "imports"]
+AREAS = ["names", "imports", "typeref"]
 LEVEL = "other"
 EXPLANATION = (
     "reference_sibling / _descendent / _ancestor / _cousin / _absolute are verified for SYMBOLIC package and type names "
@@ -7,11 +7,17 @@ EXPLANATION = (
     "(enumerated, 39 shapes): the import line they add, interpreted with Python's relative-import rule from the current "
     "package, is exactly the target package module (the class itself for the root-ancestor form), the returned forward "
     "reference is '\"alias.Type\"' with the alias that line binds, and the alias is an identifier. "
-    "Not covered deductively: the dispatch in get_type_reference (str.split on symbolic dotted names, regex in "
-    "parse_source_type_name), coexistence of many references in one module (alias collisions), emission of the imports "
-    "by the template and lazy resolution by get_type_hints: bounded end-to-end stand-in with the real plugin.")
+    "The dispatch in front of them, get_type_reference, is verified per kind of referenced type x unwrap on/off: a user type "
+    "in sibling / descendant / ancestor / cousin position (shapes up to depth 3) yields an import that resolves to ITS "
+    "package and a reference through the bound alias (the builders are executed in place); a well-known wrapper / "
+    "Timestamp / Duration is unwrapped to Optional[scalar] / datetime / timedelta without an import when unwrap is on, and "
+    "resolves to the bundled betterproto.lib[.pydantic].google.protobuf package otherwise (also Empty, Struct). "
+    "Not covered deductively: the package / type split of parse_source_type_name (by capitalisation: assumed for the "
+    "shapes used, its failures for lower-case type names are recorded known findings), coexistence of many references in "
+    "one module (alias collisions), emission of the imports by the template and lazy resolution by get_type_hints: "
+    "bounded end-to-end stand-in with the real plugin.")
 ASSUMED = ["A-IMPORT (relative import semantics)", "shapes bounded: depth <= 3 (names unbounded)",
-           "get_type_reference dispatch, alias collisions, template emission: bounded end-to-end stand-in"]
+           "C-PARSE-SOURCE, C-PYCLASS, C-WRAPPER-DEFAULTS (see evidence); alias collisions, template emission: bounded end-to-end stand-in"]
 from pyvc.check import external_bounded
 BOUNDED = [external_bounded("plugin-end-to-end:C13", "standin_plugin.run", ["C13", "--n", "8"], ["C13", "--n", "60"],
                             "real plugin via grpc_tools.protoc on generated multi-package schemas: all package-pair shapes of depth <= 3 (complete when n >= 60), import and resolve")]
